@@ -106,3 +106,34 @@ Proof.
       apply andb_prop in H; destruct H as [Hab _] end.
     apply addr_eqb_eq in Hab. subst b. unfold sock_seen in Hs. rewrite Es in Hs. unfold sock_port in Hs. rewrite Eob in Hs. exact Hs.
 Qed.
+
+(* ---- the UDP-mux host gatherer ----------------------------------------------------------------------------- *)
+Lemma dedup_in seen l d : In d (dedup_descs seen l) -> In d l.
+Proof.
+  revert seen. induction l as [|x t IH]; intros seen H; cbn in *; [exact H|].
+  destruct (existsb _ seen); [right; exact (IH _ H)|]. destruct H as [<-|H]; [left; reflexivity|right; exact (IH _ H)].
+Qed.
+
+(* the repaired gatherer: every candidate is a host candidate (that type enabled) of an enabled UDP network type, on a
+   connection borrowed from the mux (no socket of the agent's own), with the port of the mux's listen address *)
+Theorem udpmux_sound c addrs d :
+  In d (udpmux_model true c addrs) ->
+  d_type d = 1 /\ In 1 (c_ctypes c) /\ In (d_nt d) (eff_nts (c_ntypes c)) /\ d_sock d = None /\ d_base d = None /\
+  exists a port, In (a, port) addrs /\ d_port d = PExact port /\ d_disp d = host_disp c a /\ d_nt d = nt_of TUdp (a6 a).
+Proof.
+  unfold udpmux_model. destruct (mem 1 (c_ctypes c)) eqn:Em; cbn [negb]; [|intros []].
+  intros H. apply dedup_in in H. apply in_flat_map in H. destruct H as [[a port] [Hin H]].
+  unfold udpmux_one in H. cbn [andb] in H.
+  destruct (negb (mem (nt_of TUdp (a6 a)) (eff_nts (c_ntypes c)))) eqn:En; [destruct H|]. destruct H as [<-|[]].
+  cbn [d_type d_nt d_sock d_base d_port d_disp]. unfold udpmux_nt. cbn [negb andb].
+  split; [reflexivity|]. split; [apply mem_In; exact Em|]. split; [apply mem_In; apply negb_false_iff in En; exact En|].
+  split; [reflexivity|]. split; [reflexivity|]. exists a, port. auto.
+Qed.
+
+(* the pinned gatherer publishes candidates of a network type that is not enabled: a mux listening on an IPv6 address,
+   an agent configured for udp4 only *)
+Theorem udpmux_disabled_family_refuted :
+  let c := mkCfg [1] [1] 0 0 true false EmptyString None None false [] in
+  let v6 := mkAddr true [0;0;0;0;0;0;0;0;0;0;0;0;0;0;0;1] in
+  exists d, In d (udpmux_model false c [(v6, 7000)]) /\ d_pub d = true /\ ~ In (d_nt d) (eff_nts (c_ntypes c)).
+Proof. eexists. split; [left; reflexivity|]. split; [reflexivity|]. cbn. intros [H|[]]. discriminate H. Qed.
